@@ -189,6 +189,8 @@ class NPModel:
                 raise Unsupported("reduction with non-integer axis")
             f = (np.nanmin if is_min else np.nanmax) if skipnan else (np.min if is_min else np.max)
             if a.dtype != object:
+                if a.shape[int(axis)] == 0:
+                    raise PathRaise(ValueError, 'zero-size array to reduction operation which has no identity')
                 return self._it.lift(f(a, axis=int(axis)))
             m = np.moveaxis(a, int(axis), -1)
             if m.shape[-1] == 0:
@@ -200,6 +202,8 @@ class NPModel:
             if e is not None and e[0] is a:
                 self._it.sdtype[id(out)] = (out, e[1])
             return out
+        if a.size == 0:
+            raise PathRaise(ValueError, 'zero-size array to reduction operation which has no identity')
         if a.dtype != object:
             f = (np.nanmin if is_min else np.nanmax) if skipnan else (np.min if is_min else np.max)
             return f(a).item()
